@@ -6,135 +6,10 @@
    and computes the function of Model/BitArray.v. *)
 From Coq Require Import List ZArith NArith Bool String Lia ZifyBool.
 From FFSM2 Require Import Model.Cxx Model.Bits Model.BitArray Model.BitStream Generated.LeafCode
-                          Proofs.BitsProofs Proofs.BitArrayProofs Proofs.BitStreamProofs Proofs.LeafTactics Proofs.LeafConsts Proofs.LeafCodeProofs.
+                          Proofs.BitsProofs Proofs.BitArrayProofs Proofs.BitStreamProofs Proofs.LeafTactics Proofs.LeafConsts Proofs.LeafLoops Proofs.LeafCodeProofs.
 Import ListNotations.
 Local Open Scope string_scope.
 Local Open Scope Z_scope.
-
-(* ---------- counting loops over an array of bytes ---------- *)
-Lemma exec_forrange ft cs f st i t lo hi b :
-  exec ft cs (S f) st (SForRange i t lo hi b) =
-  match eval ft cs call_depth st lo, eval ft cs call_depth st hi with
-  | Some lz, Some hz =>
-      if (tmax t <? hz) || (lz <? tmin t) then OFault
-      else iter_range (Z.to_nat (hz - lz)) lz (fun k st' => exec ft cs f (set_local st' i k) b) st
-  | _, _ => OFault
-  end.
-Proof. reflexivity. Qed.
-
-Section Loops.
-Variable body : Z -> state -> outcome.
-Variable mk : Z -> list N -> state.
-
-(* a loop whose k-th iteration rewrites element k *)
-Variable g : N -> N -> N.
-Fixpoint upd_range (l : list N) (k : N) (n : nat) : list N :=
-  match n with O => l | S n' => upd_range (uset l k (g k)) (k + 1) n' end.
-
-Hypothesis Hupd : forall k v l, 0 <= k < Z.of_nat (List.length l) ->
-  body k (mk v l) = ONormal (mk k (uset l (Z.to_N k) (g (Z.to_N k)))).
-
-Lemma iter_range_upd : forall n k v l, 0 <= k -> k + Z.of_nat n <= Z.of_nat (List.length l) ->
-  exists v', iter_range n k body (mk v l) = ONormal (mk v' (upd_range l (Z.to_N k) n)).
-Proof.
-  induction n as [|n IH]; intros k v l Hk Hfit; cbn [iter_range upd_range]; [exists v; reflexivity|].
-  rewrite Hupd by lia.
-  destruct (IH (k + 1) k (uset l (Z.to_N k) (g (Z.to_N k)))) as [v' E]; [lia|rewrite uset_length; lia|].
-  exists v'. rewrite E. replace (Z.to_N (k + 1)) with (Z.to_N k + 1)%N by lia. reflexivity.
-Qed.
-
-Lemma upd_range_length : forall n l k, List.length (upd_range l k n) = List.length l.
-Proof. induction n as [|n IH]; intros l k; cbn [upd_range]; [reflexivity|]. rewrite IH, uset_length. reflexivity. Qed.
-
-Lemma upd_range_get : forall n l k j, (N.to_nat k + n <= List.length l)%nat ->
-  uget (upd_range l k n) j = if ((k <=? j) && (j <? k + N.of_nat n))%N then g j (uget l j) else uget l j.
-Proof.
-  induction n as [|n IH]; intros l k j Hfit; cbn [upd_range].
-  - destruct (N.leb_spec k j); destruct (N.ltb_spec j (k + N.of_nat 0)); cbn; try reflexivity; lia.
-  - rewrite IH by (rewrite uset_length; lia).
-    destruct (N.eq_dec j k) as [->|Hne].
-    + rewrite uget_uset_same by lia.
-      destruct (N.leb_spec (k + 1) k); [lia|]. cbn [andb].
-      destruct (N.leb_spec k k); [|lia]. destruct (N.ltb_spec k (k + N.of_nat (S n))); [|lia]. reflexivity.
-    + rewrite uget_uset_other by (intro; apply Hne; symmetry; assumption).
-      destruct (N.leb_spec (k + 1) j); destruct (N.leb_spec k j); destruct (N.ltb_spec j (k + 1 + N.of_nat n)); destruct (N.ltb_spec j (k + N.of_nat (S n))); cbn; try reflexivity; lia.
-Qed.
-
-(* a loop that leaves the array alone and returns 0 at the first element that fails a test *)
-Variable p : N -> N -> bool.
-Hypothesis Hfind : forall k v l, 0 <= k < Z.of_nat (List.length l) ->
-  body k (mk v l) = if p (Z.to_N k) (uget l (Z.to_N k)) then ONormal (mk k l) else OReturn (mk k l) (Some 0).
-
-Fixpoint all_range (l : list N) (k : N) (n : nat) : bool :=
-  match n with O => true | S n' => p k (uget l k) && all_range l (k + 1) n' end.
-
-Lemma iter_range_find : forall n k v l, 0 <= k -> k + Z.of_nat n <= Z.of_nat (List.length l) ->
-  exists v', iter_range n k body (mk v l) = if all_range l (Z.to_N k) n then ONormal (mk v' l) else OReturn (mk v' l) (Some 0).
-Proof.
-  induction n as [|n IH]; intros k v l Hk Hfit; cbn [iter_range all_range]; [exists v; reflexivity|].
-  rewrite Hfind by lia. destruct (p (Z.to_N k) (uget l (Z.to_N k))); cbn [andb]; [|exists k; reflexivity].
-  destruct (IH (k + 1) k l) as [v' E]; [lia|lia|]. exists v'. rewrite E.
-  replace (Z.to_N (k + 1)) with (Z.to_N k + 1)%N by lia. reflexivity.
-Qed.
-End Loops.
-
-Section Loops2.
-Variable body : Z -> state -> outcome.
-Variable mk : Z -> list N -> state.
-Variable p : N -> N -> bool.
-Variable l : list N.
-Hypothesis Hfind : forall k v, 0 <= k < Z.of_nat (List.length l) ->
-  body k (mk v l) = if p (Z.to_N k) (uget l (Z.to_N k)) then ONormal (mk k l) else OReturn (mk k l) (Some 0).
-Lemma iter_range_find1 : forall n k v, 0 <= k -> k + Z.of_nat n <= Z.of_nat (List.length l) ->
-  exists v', iter_range n k body (mk v l) = if all_range p l (Z.to_N k) n then ONormal (mk v' l) else OReturn (mk v' l) (Some 0).
-Proof.
-  induction n as [|n IH]; intros k v Hk Hfit; cbn [iter_range all_range]; [exists v; reflexivity|].
-  rewrite Hfind by lia. destruct (p (Z.to_N k) (uget l (Z.to_N k))); cbn [andb]; [|exists k; reflexivity].
-  destruct (IH (k + 1) k) as [v' E]; [lia|lia|]. exists v'. rewrite E.
-  replace (Z.to_N (k + 1)) with (Z.to_N k + 1)%N by lia. reflexivity.
-Qed.
-
-End Loops2.
-
-Section Loops3.
-Variable body : Z -> state -> outcome.
-Variable mk : Z -> list N -> state.
-Variable g : N -> N -> N.
-Variable Inv : list N -> Prop.
-Hypothesis Hpres : forall k x, Inv x -> Inv (uset x k (g k)).
-Hypothesis Hupd : forall k v x, Inv x -> 0 <= k < Z.of_nat (List.length x) ->
-  body k (mk v x) = ONormal (mk k (uset x (Z.to_N k) (g (Z.to_N k)))).
-Lemma iter_range_upd_inv : forall n k v x, Inv x -> 0 <= k -> k + Z.of_nat n <= Z.of_nat (List.length x) ->
-  exists v', iter_range n k body (mk v x) = ONormal (mk v' (upd_range g x (Z.to_N k) n)).
-Proof.
-  induction n as [|n IH]; intros k v x Hi Hk Hfit; cbn [iter_range upd_range]; [exists v; reflexivity|].
-  rewrite Hupd by (assumption || lia).
-  destruct (IH (k + 1) k (uset x (Z.to_N k) (g (Z.to_N k)))) as [v' E]; [apply Hpres; exact Hi|lia|rewrite uset_length; lia|].
-  exists v'. rewrite E. replace (Z.to_N (k + 1)) with (Z.to_N k + 1)%N by lia. reflexivity.
-Qed.
-End Loops3.
-
-Definition ba_state (ix : string) (v : Z) (l : list N) : state :=
-  {| locals := [(ix, v)]; fields := []; arrays := [("_storage", zs l)] |}.
-
-Lemma zs_length l : List.length (zs l) = List.length l.
-Proof. apply map_length. Qed.
-
-Lemma uget_map_c (c : N) (l : list N) u : (N.to_nat u < List.length l)%nat -> uget (map (fun _ => c) l) u = c.
-Proof.
-  intros H. unfold uget. generalize dependent (N.to_nat u). clear u.
-  induction l as [|h t IH]; intros k H; [cbn in H; lia|]. destruct k as [|k]; [reflexivity|]. cbn. apply IH. cbn in H. lia.
-Qed.
-
-Lemma upd_range_const_all c l : upd_range (fun _ _ => c) l 0 (List.length l) = map (fun _ => c) l.
-Proof.
-  apply nth_ext with (d := 0%N) (d' := 0%N); [rewrite upd_range_length, map_length; reflexivity|].
-  intros j Hj. rewrite upd_range_length in Hj.
-  assert (E : forall x : list N, nth j x 0%N = uget x (N.of_nat j)) by (intro x; unfold uget; rewrite Nat2N.id; reflexivity).
-  rewrite !E. rewrite upd_range_get by (cbn; lia).
-  destruct (N.leb_spec 0 (N.of_nat j)); [|lia]. destruct (N.ltb_spec (N.of_nat j) (0 + N.of_nat (Datatypes.length l))); [|lia]. cbn [andb].
-  rewrite uget_map_c by (rewrite Nat2N.id; exact Hj). reflexivity.
-Qed.
 
 Theorem src_BitArray_clear_all cap b : 1 <= cap <= 255 -> Forall (fun x => (x < 256)%N) b -> Z.of_nat (List.length b) = (cap + 7) / 8 ->
   result (run leaf_ftable (ba_consts cap) BitArrayT_13__clear [] [] (ba_obj b)) = Some (None, [], ba_obj (ba_clear_all b)).
@@ -195,16 +70,6 @@ Proof.
     repeat (progress (sym_exec; liftN2)).
     unfold ba_set_all, ba_units, ba_last_mask. fold m.
     erewrite uset_ext_at; [reflexivity|cbn beta; reflexivity].
-Qed.
-
-Lemma all_range_forallb (q : N -> bool) : forall l pre,
-  all_range (fun _ x => q x) (pre ++ l)%list (N.of_nat (List.length pre)) (List.length l) = forallb q l.
-Proof.
-  induction l as [|h t IH]; intros pre; cbn [all_range forallb List.length]; [reflexivity|].
-  unfold uget at 1. rewrite Nat2N.id, app_nth2 by lia. rewrite Nat.sub_diag. cbn [nth]. f_equal.
-  replace (pre ++ h :: t)%list with ((pre ++ [h]) ++ t)%list by (rewrite <- app_assoc; reflexivity).
-  replace (N.of_nat (Datatypes.length pre) + 1)%N with (N.of_nat (Datatypes.length (pre ++ [h])%list)) by (rewrite app_length; cbn; lia).
-  apply IH.
 Qed.
 
 (* empty(): false at the first non-zero unit *)
